@@ -31,7 +31,7 @@ def digits(v, w):
 
 
 def mk(pid, kinds, strict, source='string', perm=None, widths=None, T=60, sym_ids=False, sort_objects=False, tag='',
-       mids=None, may_fail=True):
+       mids=None, may_fail=True, rc_mid=None, sym_rc=None):
     """sym_ids: message IDs are symbolic digit strings of the given widths (used where no message fails:
     a failing merge formats its message ID into the error text, which realises the integer and turns
     one path into one path per value); otherwise they are the concrete ``mids``."""
@@ -45,6 +45,12 @@ def mk(pid, kinds, strict, source='string', perm=None, widths=None, T=60, sym_id
     ex = {'s0': 'a', 's1': 'b', 's2': 'c', 'x': 'z'}
     if not sym_ids:
         P['mids'] = mids or ['20', '3', '100', '7'][:k]
+    if rc_mid:
+        P['rc_mid'] = rc_mid
+    if sym_rc:
+        sym.append(('m_rc', 'str'))
+        pre += digits('m_rc', sym_rc)
+        ex['m_rc'] = '5' + '0' * (sym_rc - 1)
     for j in range(k):
         if sym_ids:
             sym.append(('m%d' % j, 'str'))
@@ -62,11 +68,17 @@ def mk(pid, kinds, strict, source='string', perm=None, widths=None, T=60, sym_id
             for b in range(a + 1, k):
                 if widths[a] == widths[b]:
                     pre.append('m%d != m%d' % (a, b))
+            if sym_rc and widths[a] == sym_rc:
+                pre.append('m%d != m_rc' % a)
     pre = str_pre(strs) + distinct(strs) + pre
     cid = '%s/%s/%s/%s' % (pid, '+'.join(kinds), 'strict' if strict else 'non-strict', source)
     if perm:
         cid += '/perm-' + ''.join(map(str, perm))
     cid += ('/symids-' + ''.join(map(str, widths))) if sym_ids else ('/ids-' + '-'.join(P['mids']))
+    if rc_mid:
+        cid += '/roCreate-id-' + rc_mid
+    if sym_rc:
+        cid += '/roCreate-symid-%d' % sym_rc
     if tag:
         cid += '/' + tag
     return Cell(pid=pid, cid=cid, harness='h_collect:collection_cell', params=P, sym=sym, pre=pre,
@@ -94,6 +106,11 @@ def cells(tier):
         for strict in (True, False):
             out.append(mk(PID, pair, strict, 'string', T=T, mids=['1', '20'], tag='same-id-as-roCreate'))
             out.append(mk(PID, pair, strict, 'file', T=T, mids=['20', '1'], perm=[1, 2, 0], tag='same-id-as-roCreate'))
+    # the roCreate need not carry the lowest message ID (counter reset, late roCreate)
+    for tr in (('roStoryAppend', 'roStoryMove', 'roDelete'), ('roStoryDelete', 'roStoryInsert', 'roStorySend')):
+        for strict in (True, False):
+            out.append(mk(PID, tr, strict, 'string', T=T, mids=['20', '3', '100'], rc_mid='50'))
+            out.append(mk(PID, tr, strict, 's3', T=T, mids=['100', '20', '3'], rc_mid='21', perm=[2, 0, 3, 1]))
     # roReplace among other messages
     for tr in (('roMetadataReplace', 'roReplace', 'roStoryAppend'), ('roStoryMove', 'roReplace', 'roDelete')):
         for strict in (True, False):
